@@ -1,6 +1,6 @@
 (* C02 — static resources: the right file, its exact bytes, its media type.  Property theorems only. *)
 From Rws Require Import Str Utf8 Num Fs UrlParse RangeSpec Request GenMime Mime StaticRes GenConsts Forms Server
-                        C01Proof C02Proof C03Proof C02Chain.
+                        C01Proof C02Proof C03Proof C02Chain RefMime C02Mime.
 Open Scope N_scope.
 
 (* the documented lookup, as a specification: the file itself | index.html inside the named directory | the file with .html appended *)
@@ -51,3 +51,18 @@ Theorem C02_query_fragment_irrelevant : forall fs u1 u2 hs P,
 Proof. exact same_path_same_answer. Qed.
 Theorem C02_reparse_clean : forall P, clean_path P -> path_or_panic P = SOk P.
 Proof. exact reparse_clean. Qed.
+
+(* the media type: a function of the extension alone, equal to the frozen reference table (89 extensions, IANA / MDN as adopted by rws) for
+   every directory and every stem; any other extension gets the default.  The chain is regenerated from /repo on every run. *)
+Theorem C02_mime_by_extension : forall p q e, p = q ++ DOT :: e -> ~ In DOT e -> path_extension p = Some e -> detect_mime p = run_ext e mime_chain.
+Proof. exact mime_by_extension. Qed.
+Theorem C02_mime_is_reference : forall dir stem e t, ~ In SLASH stem -> ~ In SLASH e -> ~ In DOT e -> stem <> [] -> e <> [] ->
+  In (e, t) ref_mime_table -> detect_mime (dir ++ SLASH :: stem ++ DOT :: e) = t.
+Proof. exact mime_is_reference. Qed.
+Theorem C02_mime_unknown_is_default : forall dir stem e, ~ In SLASH stem -> ~ In SLASH e -> ~ In DOT e -> stem <> [] -> e <> [] ->
+  existsb (beqs (DOT :: e)) chain_sufs = false -> detect_mime (dir ++ SLASH :: stem ++ DOT :: e) = ref_mime_default.
+Proof. exact mime_unknown_is_default. Qed.
+Theorem C02_mime_tables_agree :
+  forallb (fun s => match s with d :: e => N.eqb d DOT && existsb (fun et => beqs (fst et) e) ref_mime_table | [] => false end) chain_sufs = true /\
+  forallb (fun et => existsb (beqs (DOT :: fst et)) chain_sufs || beqs (snd et) ref_mime_default) ref_mime_table = true.
+Proof. exact (conj ref_covers_chain chain_covers_ref). Qed.
